@@ -1,9 +1,13 @@
 package checks
 
 import (
+	"encoding/json"
 	"fmt"
 	"math/big"
+	"reflect"
 	"sync"
+
+	"github.com/consensys/gnark-crypto/ecc/bn254"
 
 	"verif/harness/ref"
 	"worldcoin/gnark-mbu/prover"
@@ -250,4 +254,89 @@ func nearValidDelBatches(d, b int) []delBatch {
 	mk(int64(4*n), true)
 	mk(1, false) // genuine deletion presented, but the claimed post-root is the unchanged root
 	return out
+}
+
+// ---- proof re-randomisation ---------------------------------------------------
+// A Groth16 proof (A,B,C) stays valid under (sA, s^-1 B, C) and under
+// (A, B + t*delta2, C + t*A). The checks use this to obtain VALID proofs in which a
+// chosen coordinate has leading zero bytes, deterministically instead of waiting
+// for the ~2 % chance per coordinate.
+
+type proofVariant struct {
+	JSON  []byte
+	Short []string // names of the slots shorter than 32 bytes
+}
+
+func vkDelta2(ps *prover.ProvingSystem) (bn254.G2Affine, error) {
+	v := reflect.ValueOf(ps.VerifyingKey)
+	if v.Kind() == reflect.Ptr {
+		v = v.Elem()
+	}
+	f := v.FieldByName("G2")
+	if !f.IsValid() {
+		return bn254.G2Affine{}, fmt.Errorf("verifying key has no G2 field")
+	}
+	d := f.FieldByName("Delta")
+	if !d.IsValid() {
+		return bn254.G2Affine{}, fmt.Errorf("verifying key has no G2.Delta field")
+	}
+	g, ok := d.Interface().(bn254.G2Affine)
+	if !ok {
+		return bn254.G2Affine{}, fmt.Errorf("unexpected type of G2.Delta")
+	}
+	return g, nil
+}
+
+// proofVariants returns valid re-randomisations of the proof such that every one of the
+// eight JSON slots is short in at least one variant (bounded search; slots not reached are simply missing).
+func proofVariants(ps *prover.ProvingSystem, proofJSON []byte, maxTrials int) ([]proofVariant, error) {
+	pr, err := decodeProofIndependentlyV(proofJSON)
+	if err != nil {
+		return nil, err
+	}
+	e := reflect.ValueOf(pr.Proof).Elem()
+	A := e.FieldByName("Ar").Interface().(bn254.G1Affine)
+	B := e.FieldByName("Bs").Interface().(bn254.G2Affine)
+	C := e.FieldByName("Krs").Interface().(bn254.G1Affine)
+	delta, err := vkDelta2(ps)
+	if err != nil {
+		return nil, err
+	}
+	covered := map[string]bool{}
+	var out []proofVariant
+	for trial := 1; trial <= maxTrials && len(covered) < 8; trial++ {
+		s := big.NewInt(int64(2*trial + 1))
+		t := big.NewInt(int64(7*trial + 3))
+		sInv := new(big.Int).ModInverse(s, ref.R)
+		var A2, C2, tA bn254.G1Affine
+		var B2, tD bn254.G2Affine
+		A2.ScalarMultiplication(&A, s)
+		B2.ScalarMultiplication(&B, sInv)
+		// second move on (A2, B2, C): B3 = B2 + t*delta, C3 = C + t*A2
+		tD.ScalarMultiplication(&delta, t)
+		B2.Add(&B2, &tD)
+		tA.ScalarMultiplication(&A2, t)
+		C2.Add(&C, &tA)
+		co := [8]*big.Int{A2.X.BigInt(new(big.Int)), A2.Y.BigInt(new(big.Int)), B2.X.A1.BigInt(new(big.Int)), B2.X.A0.BigInt(new(big.Int)), B2.Y.A1.BigInt(new(big.Int)), B2.Y.A0.BigInt(new(big.Int)), C2.X.BigInt(new(big.Int)), C2.Y.BigInt(new(big.Int))}
+		var short []string
+		fresh := false
+		for i, x := range co {
+			if len(x.Bytes()) < 32 {
+				short = append(short, slotNames[i])
+				if !covered[slotNames[i]] {
+					fresh = true
+				}
+			}
+		}
+		if !fresh {
+			continue
+		}
+		for _, n := range short {
+			covered[n] = true
+		}
+		hx := func(x *big.Int) string { return "0x" + x.Text(16) }
+		js, _ := json.Marshal(map[string]any{"ar": []string{hx(co[0]), hx(co[1])}, "bs": [][]string{{hx(co[2]), hx(co[3])}, {hx(co[4]), hx(co[5])}}, "krs": []string{hx(co[6]), hx(co[7])}})
+		out = append(out, proofVariant{js, short})
+	}
+	return out, nil
 }
